@@ -38,6 +38,12 @@ Definition s_hd (v : version) (p : profile) (e : endian) (file : bytes) (ds : li
 Definition s_ms (e : endian) (file : bytes) (ds : list dirent) := get_stream file ds ST_MISC_INFO (fun s => lift (read_misc_info e s)).
 Definition s_raw (file : bytes) (ds : list dirent) (ty : Z) : res bytes := raw_stream file ds ty.
 Definition s_cp (e : endian) (file : bytes) (ds : list dirent) := get_stream file ds ST_CRASHPAD (read_crashpad_info e file).
+Definition s_sis (p : profile) (e : endian) (file : bytes) (ds : list dirent) := get_stream file ds ST_SYSTEM_INFO (fun s => lift (sysinfo_strings p e file s)).
+Definition s_as (e : endian) (file : bytes) (ds : list dirent) := get_stream file ds ST_ASSERTION (fun s => lift (read_assertion e s)).
+Definition s_bp (e : endian) (file : bytes) (ds : list dirent) := get_stream file ds ST_BREAKPAD (fun s => lift (read_breakpad_info e s)).
+Definition s_mb (p : profile) (e : endian) (file : bytes) (ds : list dirent) := get_stream file ds ST_MAC_BOOT (fun s => lift (read_mac_bootargs p e file s)).
+Definition s_se (file : bytes) (ds : list dirent) := get_stream file ds ST_MOZ_SOFT (fun s => lift (read_soft_errors s)).
+Definition s_mc (p : profile) (e : endian) (file : bytes) (ds : list dirent) := get_stream file ds ST_MAC_CRASH (fun s => lift (read_mac_crash_info p e file s)).
 Definition s_ex (e : endian) (file : bytes) (ds : list dirent) := get_stream file ds ST_EXCEPTION (fun s => lift (read_exception e s)).
 Definition f_exp (v : version) (ex : res (Z * (Z * Z))) : field :=
   match ex with Ok (n, _) => fld (fun _ => []) (exception_print v n) | _ => FOk [] end.
@@ -94,7 +100,7 @@ Definition f_ma (e : endian) (file : bytes) (mem : res (list bytes)) : field :=
   fld (fun regions => flat_map (region_probes e file) (firstn 8 regions)) mem.
 
 (* field tags: 0 R  1 SI  2 TL  3 ML  4 UM  5 MEM  6 M64  7 MI  8 TI  9 TN  10 HD  11 EX  12 EXP  13 EXC
-   14 TLP  15 MS  16 LC  17 LS  18 LR  19 LE  20 LL  21 MA  22 CP *)
+   14 TLP  15 MS  16 LC  17 LS  18 LR  19 LE  20 LL  21 MA  22 CP  23 SIS  24 AS  25 BP  26 MB  27 SE  28 MC *)
 Definition run_case (v : version) (p : profile) (file : bytes) : c01_out :=
   match read_header file with
   | Ok (e, ds) =>
@@ -111,7 +117,11 @@ Definition run_case (v : version) (p : profile) (file : bytes) : c01_out :=
                       (18, f_kv 61 (s_raw file ds ST_LINUX_LSB)); (19, f_kv 61 (s_raw file ds ST_LINUX_ENVIRON));
                       (20, f_lines (s_raw file ds ST_MOZ_LIMITS));
                       (21, f_ma e file (snd (s_mem p e file ds)));
-                      (22, fld (fun x => [fst x; fst (snd x); snd (snd x)]) (snd (s_cp e file ds)))];
+                      (22, fld (fun x => [fst x; fst (snd x); snd (snd x)]) (snd (s_cp e file ds)));
+                      (23, fld two (snd (s_sis p e file ds)));
+                      (24, fld (fun x => [fst x; fst (snd x); snd (snd x)]) (snd (s_as e file ds)));
+                      (25, fld two (snd (s_bp e file ds))); (26, fld one (snd (s_mb p e file ds)));
+                      (27, fld one (snd (s_se file ds))); (28, fld one (snd (s_mc p e file ds)))];
          o_ledger := fst (s_tl p e file ds) ++ fst (s_ml p e file ds) ++ fst (s_um p e file ds) ++ fst (s_mem p e file ds)
                      ++ fst (s_m64 p e file ds) ++ fst (s_mi p e file ds) ++ fst (s_ti p e file ds) ++ fst (s_tn p e file ds)
                      ++ fst (s_hd v p e file ds) ++ fst (s_cp e file ds) |}
